@@ -443,3 +443,140 @@ Proof.
     + reflexivity.
     + apply IH. intros st' y Hy. apply H. right. exact Hy.
 Qed.
+
+(* ------------------------------------------------------------------ *)
+(* batch 4: the stateful methods of DocumentationAggregator            *)
+
+(* The settings object held in a field (self.settings).  An option self.settings.<group>.<option> is
+   looked up BY NAME (the str <group>.<option>) in the one settings argument of the translated method,
+   so that exchanging two options in the Python source changes the generated term (not only the name
+   of a binder).  The translator checks in config.py that the option exists and has the type used.
+     self.settings.G.O                  py_setting_str / py_setting_bool  settings (s G.O)
+     re.sub(self.settings.G.O, '', x)   py_setting_re_sub settings (s G.O) x
+   (what deleting every match of the regular expression held in that option does to x; regular
+   expressions themselves are outside the model, exactly as the strip functions of Model.Aggregator) *)
+Record py_settings := {
+  py_setting_str : str -> str;
+  py_setting_bool : str -> bool;
+  py_setting_re_sub : str -> str -> str }.
+
+(* Objects of the classes AbstractCommandDefinitionDocumentation (Function/MacroDocumentation) and
+   ClassDocumentation that are held in a field, in a dataclass record or in a list of the aggregator
+   are elements of self.documented; such a reference is the POSITION of the object in self.documented
+   (the list is append-only in the aggregator, so positions are stable), None stays None.
+     x = C(..); self.documented.append(x)      let x_index := py_len self_documented in ...
+     .. x used where a reference is kept ..    x_index  /  Some x_index
+   A mutation of the object through a reference r updates the element at r: *)
+Definition py_ref_update (xs : list entry) (r : nat) (f : entry -> entry) : list entry :=
+  update_nth r f xs.
+(* the same through an Optional reference.  Python raises AttributeError on None; here xs is unchanged
+   (every such statement of the aggregator stands behind an  is not None / isinstance  test) *)
+Definition py_optref_update (xs : list entry) (r : option nat) (f : entry -> entry) : list entry :=
+  match r with Some i => update_nth i f xs | None => xs end.
+(* Python:   isinstance(r, C)   for an Optional reference r (None is an instance of no class) *)
+Definition py_optref_test (xs : list entry) (r : option nat) (p : entry -> bool) : bool :=
+  match r with Some i => p (py_deref xs i) | None => false end.
+(* Python:   isinstance(x, AbstractCommandDefinitionDocumentation) / isinstance(x, ClassDocumentation) *)
+Definition py_is_command_definition_entry (e : entry) : bool :=
+  match e with EFunction _ _ _ _ _ => true | _ => false end.
+Definition py_is_class_entry (e : entry) : bool :=
+  match e with EClass _ _ _ _ _ _ _ => true | _ => false end.
+
+(* Python:   x.has_kwargs = v    (only Function/MacroDocumentation have the field in DocTypes.entry;
+   on another object Python would create an attribute that nothing reads) *)
+Definition py_entry_set_has_kwargs (v : bool) (e : entry) : entry :=
+  match e with EFunction m n d p _ => EFunction m n d p v | _ => e end.
+(* Python:   x.inner_classes.append(c)   Model.DocTypes keeps the NAMES of the inner classes (all that
+   ClassDocumentation.process reads of them) *)
+Definition py_entry_add_inner_class (c : entry) (e : entry) : entry :=
+  match e with
+  | EClass n d su inner ct me at_ => EClass n d su (inner ++ [py_entry_name c]) ct me at_
+  | _ => e
+  end.
+(* Python:   x.constructors.append(m) / x.members.append(m) / x.attributes.append(a) *)
+Definition py_entry_add_constructor (m : method) (e : entry) : entry :=
+  match e with
+  | EClass n d su inner ct me at_ => EClass n d su inner (ct ++ [m]) me at_
+  | _ => e
+  end.
+Definition py_entry_add_member (m : method) (e : entry) : entry :=
+  match e with
+  | EClass n d su inner ct me at_ => EClass n d su inner ct (me ++ [m]) at_
+  | _ => e
+  end.
+Definition py_entry_add_attribute (a : attribute) (e : entry) : entry :=
+  match e with
+  | EClass n d su inner ct me at_ => EClass n d su inner ct me (at_ ++ [a])
+  | _ => e
+  end.
+(* Python:   MethodDocumentation(name, doc, parent_class, param_types, params, is_constructor)
+   is_macro has its dataclass default False.  m_docd / a_docd are ghost fields of the model (did the
+   declaration carry a doccomment) that no Python object has: false here, and the theorems of
+   Proofs/SourceMatch2.v compare documented lists up to these two fields. *)
+Definition py_new_method (name doc parent : str) (types params : list str) (is_ctor : bool) : method :=
+  {| m_name := name; m_doc := doc; m_parent := parent; m_types := types; m_params := params;
+     m_ctor := is_ctor; m_macro := false; m_docd := false |}.
+(* Python:   AttributeDocumentation(name, doc, parent_class, default_value) *)
+Definition py_new_attribute (name doc parent : str) (default : option str) : attribute :=
+  {| a_name := name; a_doc := doc; a_parent := parent; a_default := default; a_docd := false |}.
+(* A MethodDocumentation lives inside its class entry.  After  r.constructors.append(m)  /
+   r.members.append(m)  a reference to m that is stored in the awaiting slot is
+   Aggregator.AwMethod r true / false : the NEWEST constructor / member of the class at r (every such
+   append in the aggregator is followed by the assignment of the slot, so the newest one is m). *)
+
+(* ---- batch 4, part 2: enterCommand_invocation ---- *)
+From CMinx Require Model.Aggregator.
+
+(* Python:   ctx.Identifier().getText()   the command name of a command invocation *)
+Definition py_cmd_identifier (c : cmd) : str := c_name c.
+(* Python:   x.lower()   The translator emits it only for the text of an Identifier token, which the grammar
+   restricts to ASCII letters, digits and the underscore, where str.lower() is ASCII lower-casing. *)
+Definition py_lower_ascii (x : str) : str := lower_ascii x.
+(* Python:   xs.pop()   (statement).  None = IndexError: pop from empty list; Some = the new value of xs *)
+Definition py_pop {A : Type} (xs : list A) : option (list A) :=
+  match xs with [] => None | _ :: _ => Some (drop_last xs) end.
+(* Python:   self.settings.<group>.__dict__[key]   for a key whose possible values are the bool options
+   `declared` of that group (listed by the translator from config.py).  None = KeyError. *)
+Definition py_setting_dict_bool (st : py_settings) (group : str) (declared : list str) (key : str)
+  : option bool :=
+  if mem_str key declared then Some (py_setting_bool st (group ++ [46%N] ++ key)) else None.
+
+(* The awaiting slot  self.documented_awaiting_function_def : Aggregator.await  refers to
+     AwNone              None
+     AwTop i             the Test/SectionDocumentation at position i of self.documented (the translator checks
+                         the class of the object at the assignment of the slot)
+     AwMethod i is_ctor  the newest constructor / member of the class at position i
+   Python:   slot is None / is not None / isinstance(slot, MethodDocumentation) *)
+Definition py_await_is_none (a : Aggregator.await) : bool :=
+  match a with Aggregator.AwNone => true | _ => false end.
+Definition py_await_is_not_none (a : Aggregator.await) : bool := negb (py_await_is_none a).
+Definition py_await_is_method (a : Aggregator.await) : bool :=
+  match a with Aggregator.AwMethod _ _ => true | _ => false end.
+(* a mutation of the object the slot refers to: fe on a documentation object of self.documented, fm on a
+   method inside a class entry.  On None Python raises AttributeError; here xs is unchanged (the statements
+   of the aggregator stand behind  slot is not None). *)
+Definition py_await_update (xs : list entry) (a : Aggregator.await)
+           (fe : entry -> entry) (fm : method -> method) : list entry :=
+  match a with
+  | Aggregator.AwNone => xs
+  | Aggregator.AwTop i => update_nth i fe xs
+  | Aggregator.AwMethod i is_ctor =>
+      update_nth i (fun e => match e with
+                             | EClass n d su inner ct me at_ =>
+                                 if is_ctor then EClass n d su inner (update_last fm ct) me at_
+                                 else EClass n d su inner ct (update_last fm me) at_
+                             | _ => e
+                             end) xs
+  end.
+(* Python:   x.is_macro = v   and   x.params.extend(ps)   for a Test/SectionDocumentation x ... *)
+Definition py_entry_set_is_macro (v : bool) (e : entry) : entry :=
+  match e with ETest sec n d xf ps _ => ETest sec n d xf ps v | _ => e end.
+Definition py_entry_extend_params (ps' : list str) (e : entry) : entry :=
+  match e with ETest sec n d xf ps m => ETest sec n d xf (ps ++ ps') m | _ => e end.
+(* ... and for a MethodDocumentation *)
+Definition py_method_set_is_macro (v : bool) (m : method) : method :=
+  {| m_name := m_name m; m_doc := m_doc m; m_parent := m_parent m; m_types := m_types m;
+     m_params := m_params m; m_ctor := m_ctor m; m_macro := v; m_docd := m_docd m |}.
+Definition py_method_extend_params (ps' : list str) (m : method) : method :=
+  {| m_name := m_name m; m_doc := m_doc m; m_parent := m_parent m; m_types := m_types m;
+     m_params := m_params m ++ ps'; m_ctor := m_ctor m; m_macro := m_macro m; m_docd := m_docd m |}.
